@@ -15,7 +15,7 @@ echo "== existing suite WITH change (expect pass; seeded_demo excluded)"
 mv oxmpl/tests/seeded_demo.rs /tmp/seeded_demo_$id.rs
 cargo test --workspace --no-fail-fast --offline 2>&1 | grep -E "^test result|FAILED|failed" > $out/suite_with.txt
 mv /tmp/seeded_demo_$id.rs oxmpl/tests/seeded_demo.rs
-grep -E '^test .* FAILED' $out/suite_with.txt | grep -v prm_finds_path_in_so3ss && echo '!!! SUITE-BROKEN: a test other than the known load-dependent prm_so3ss fails with this change — re-run it before keeping the seed'
+grep -E '^test [A-Za-z_0-9:]+ \.\.\. FAILED' $out/suite_with.txt | grep -v prm_finds_path_in_so3ss && echo '!!! SUITE-BROKEN: a test other than the known load-dependent prm_so3ss fails with this change — re-run it before keeping the seed'
 echo "ok-lines: $(grep -c 'test result: ok' $out/suite_with.txt)  failed-lines: $(grep -vc 'test result: ok' $out/suite_with.txt)"; grep -v 'test result: ok' $out/suite_with.txt | head -5
 echo "== demo WITHOUT change (expect pass)"
 git apply -R $out/patch.diff  # (not git stash: the stash is shared between worktrees)
